@@ -373,6 +373,9 @@ fn run(ctx: &mut Ctx, idx: u64) {
   };
   ctx.count("feature_sets_checked");
   ctx.nontrivial(mask as u64);
+  if ctx.tier == Tier::Thorough {
+    prune(&format!("{}/target/c19/t{}", VERIF, slot));
+  }
   if ok {
     ctx.count("feature_sets_build");
     ctx.sample("builds", 40, || json!({"features": feature_arg(mask)}));
@@ -423,6 +426,9 @@ fn run(ctx: &mut Ctx, idx: u64) {
   let mut rng = Rng::new(ctx.seed ^ (mask as u64).wrapping_mul(0x9E37_79B9_7F4A_7C15));
   let n = if ctx.tier == Tier::Quick { 160 } else { 500 };
   let items = workload(&mut rng, n);
+  if ctx.tier == Tier::Thorough {
+    prune(&tdir);
+  }
   let want = run_driver(&refbin, &items, mask, "ref");
   let got = run_driver(&bin, &items, mask, "set");
   let _ = std::fs::remove_file(&refbin);
@@ -438,6 +444,11 @@ fn run(ctx: &mut Ctx, idx: u64) {
       ctx.report(&format!("differs-{}:{},item.{}", op, lits, it.kind), json!({"features": feature_arg(mask), "schema": it.v["schema"], "item": it.v, "operation": op, "with_all_features": a, "with_this_set": b}));
     };
     let (w, g) = match (&want[k], &got[k]) {
+      (Some(w), Some(g)) if w["timed_out"] == true || g["timed_out"] == true => {
+        // a wall-clock event is never a verdict
+        ctx.count("items_timed_out_in_a_driver_skipped");
+        continue;
+      }
       (Some(w), Some(g)) => (w, g),
       (None, None) => {
         ctx.count("items_both_drivers_died");
@@ -495,6 +506,25 @@ fn run(ctx: &mut Ctx, idx: u64) {
   }
 }
 
+/// thorough runs visit every feature set: drop the per-set artefacts of the cddl crate (not the dependencies)
+fn prune(tdir: &str) {
+  for sub in ["debug/deps", "debug/.fingerprint", "debug/incremental"] {
+    if let Ok(rd) = std::fs::read_dir(format!("{}/{}", tdir, sub)) {
+      for e in rd.flatten() {
+        let n = e.file_name().to_string_lossy().to_string();
+        if n.starts_with("libcddl-") || n.starts_with("cddl-") || n.starts_with("c19drv-") || n.starts_with("libc19drv-") || sub == "debug/incremental" {
+          let p = e.path();
+          if p.is_dir() {
+            let _ = std::fs::remove_dir_all(&p);
+          } else {
+            let _ = std::fs::remove_file(&p);
+          }
+        }
+      }
+    }
+  }
+}
+
 fn build_driver(mask: u32, tdir: &str, dest: &str) -> Result<(), String> {
   let fl: Vec<&str> = F.iter().enumerate().filter(|(i, _)| mask >> i & 1 == 1).map(|(_, f)| *f).collect();
   let _ = std::fs::create_dir_all(tdir);
@@ -527,13 +557,19 @@ fn run_driver(bin: &str, items: &[Item], mask: u32, tag: &str) -> Vec<Option<Val
   let mut restarts = 0;
   while res.len() < items.len() && restarts < 60 {
     let _ = std::fs::remove_file(&opath);
-    let _ = Command::new("timeout").arg("300").arg(bin).arg(&wpath).arg(&opath).arg(res.len().to_string()).stdin(Stdio::null()).stdout(Stdio::null()).stderr(Stdio::null()).status();
+    let st = Command::new("timeout").arg("600").arg(bin).arg(&wpath).arg(&opath).arg(res.len().to_string()).stdin(Stdio::null()).stdout(Stdio::null()).stderr(Stdio::null()).status();
     let recs: Vec<Value> = std::fs::read_to_string(&opath).unwrap_or_default().lines().filter_map(|l| serde_json::from_str(l).ok()).collect();
     for r in recs {
       res.push(Some(r));
     }
     if res.len() < items.len() {
-      res.push(None);
+      // exit 3 = the driver's own no-progress watchdog, 124 = timeout(1): time, not behaviour
+      let code = st.ok().and_then(|s| s.code());
+      if code == Some(3) || code == Some(124) {
+        res.push(Some(json!({"timed_out": true})));
+      } else {
+        res.push(None);
+      }
       restarts += 1;
     }
   }
